@@ -351,7 +351,12 @@ func c13Units(tier string) []Unit {
 		{"reentry-group", alpha{scopes: []int{0, 1}, ctors: []*uFunc{pA, fBgAe}, decos: []*uFunc{dGBAe}, invokes: []*uFunc{iAe, iGB}}, []string{"dGBAe", "fBgAe"}, prefixChild},
 	}
 	for _, f := range fams {
-		for _, plan := range faultPlans(f.faulty, behs, false) {
+		fb := behs
+		if f.name == "positional-chain" || f.name == "decorators" || !q {
+			// a panic whose value is itself an error wrapping a dig error
+			fb = append(append([][]u.Beh{}, behs...), []u.Beh{u.BehPanicDigErr})
+		}
+		for _, plan := range faultPlans(f.faulty, fb, false) {
 			for _, rec := range []bool{false, true} {
 				units = append(units, Unit{Sc: &Scenario{
 					Name: fmt.Sprintf("%s/%s/recover=%v", f.name, plansText(plan), rec), Cfg: h.Config{Recover: rec}, Plans: plan,
